@@ -130,7 +130,15 @@ class SFunc:
         self.f = f
 
 
+# "iN": any signed integer dtype (int8 ... int64) -- symbolic range, at least int8, at most int64.
+# A function proved for A[iN, k] parameters is proved for every signed integer dtype: stores must fit
+# int8's range shifted to the symbolic bounds, loads are only known to lie within them.
+INLO = z3.Int("dtype_iN_min")
+INHI = z3.Int("dtype_iN_max")
+IN_AXIOM = z3.And(INLO <= -(2 ** 7), INHI >= 2 ** 7 - 1, INLO >= -(2 ** 63), INHI <= 2 ** 63 - 1, INLO == -INHI - 1)
+
 DTYPES = {
+    "iN": (INLO, INHI),
     "i1": (-(2 ** 7), 2 ** 7 - 1),
     "i2": (-(2 ** 15), 2 ** 15 - 1),
     "i4": (-(2 ** 31), 2 ** 31 - 1),
